@@ -154,6 +154,12 @@ theorem step_decreases (fx : Bool) (cap : Nat) (s s' : St) (h : Step fx cap s s'
     have := wCallers_modify_lt s.callers i (fun c => { c with st := .done (.err 1) }) c hi
       (by cases hst : c.st <;> simp [hst, isWaiting, wCS] at hw ⊢)
     simp [measure, St.setSt, hc] at this ⊢; omega
+  | giveUp i c hi hw hctx =>
+    have := wCallers_modify_lt s.callers i (fun c => { c with st := .done (.err 6) }) c hi
+      (by rcases hw with hw | hw
+          · simp [hw, wCS]
+          · cases hst : c.st <;> simp [hst, isWaiting, wCS] at hw ⊢)
+    simp [measure, St.setSt, hc] at this ⊢; omega
   | sever h => simp [hc] at h
 
 /-- the connection stays gone -/
